@@ -1216,6 +1216,40 @@ func runC03EarlyEndScrubs(c *Ctx) {
 	if n == 0 {
 		c.Bad("C03.17", "responseWriter", "early-end-removes", token.NoPos, "no flush of the client's headers under 'backend headers not processed yet' found: shape changed")
 	}
+	// ... and that state exists (seed C11m): 'respMeta == nil' is how the writer knows the backend's
+	// headers were not processed yet, so a response writer starts with the cell nil - a literal
+	// that pre-fills it ("defensive" &responseMeta{}) makes the arm above dead code.
+	rwT := p.MustNamed("responseWriter")
+	for _, fn := range p.Funcs {
+		if !p.inScope(fn) {
+			continue
+		}
+		ForEachInstr(fn, func(in ssa.Instruction) {
+			al, ok := in.(*ssa.Alloc)
+			if !ok {
+				return
+			}
+			pt, ok := al.Type().(*types.Pointer)
+			if !ok || !types.Identical(pt.Elem(), rwT) {
+				return
+			}
+			pre := token.NoPos
+			for _, ref := range *al.Referrers() {
+				fa, ok := ref.(*ssa.FieldAddr)
+				if !ok || FieldOfAddr(fa) != respMetaF {
+					continue
+				}
+				for _, r2 := range *fa.Referrers() {
+					if st, ok := r2.(*ssa.Store); ok && st.Addr == ssa.Value(fa) && !IsNilConst(st.Val) {
+						pre = st.Pos()
+					}
+				}
+			}
+			c.Check(pre == token.NoPos, "C03.17", FuncName(fn), "early-state-exists", al.Pos(),
+				"a new response writer starts with respMeta nil ('backend headers not processed yet')",
+				"the response writer is created with respMeta already set: 'respMeta == nil' can never hold, so an end reported before the backend's headers were processed skips the removal of the backend's Content-Length / Content-Encoding / Trailer")
+		})
+	}
 }
 
 // runC03ErrorBodyLabelled: C03.18 (defect D58).  Client protocols whose end travels in the response
